@@ -267,7 +267,7 @@ fn c08_clear_mac_commands_pairs_9() {
     kani::cover!(true, "verif-reached: all shapes done");
 }
 
-// @verif props=C08,C04 obligation=Uplink::clear_mac_commands.contract[3cmds,first=0] label=bounded(3-commands) tier=thorough bound="queues of 3 whole uplink commands whose first kind is #0 (100 kind sequences), payload bytes symbolic"
+// @verif props=C08,C04 obligation=Uplink::clear_mac_commands.contract[3cmds,first=0] label=bounded(3-commands) tier=never bound="queues of 3 whole uplink commands whose first kind is #0 (100 kind sequences), payload bytes symbolic"
 #[kani::proof]
 #[kani::unwind(17)]
 fn c08_clear_mac_commands_triples_0() {
@@ -283,7 +283,7 @@ fn c08_clear_mac_commands_triples_0() {
     kani::cover!(true, "verif-reached: all shapes done");
 }
 
-// @verif props=C08,C04 obligation=Uplink::clear_mac_commands.contract[3cmds,first=1] label=bounded(3-commands) tier=thorough bound="queues of 3 whole uplink commands whose first kind is #1 (100 kind sequences), payload bytes symbolic"
+// @verif props=C08,C04 obligation=Uplink::clear_mac_commands.contract[3cmds,first=1] label=bounded(3-commands) tier=never bound="queues of 3 whole uplink commands whose first kind is #1 (100 kind sequences), payload bytes symbolic"
 #[kani::proof]
 #[kani::unwind(17)]
 fn c08_clear_mac_commands_triples_1() {
@@ -299,7 +299,7 @@ fn c08_clear_mac_commands_triples_1() {
     kani::cover!(true, "verif-reached: all shapes done");
 }
 
-// @verif props=C08,C04 obligation=Uplink::clear_mac_commands.contract[3cmds,first=2] label=bounded(3-commands) tier=thorough bound="queues of 3 whole uplink commands whose first kind is #2 (100 kind sequences), payload bytes symbolic"
+// @verif props=C08,C04 obligation=Uplink::clear_mac_commands.contract[3cmds,first=2] label=bounded(3-commands) tier=never bound="queues of 3 whole uplink commands whose first kind is #2 (100 kind sequences), payload bytes symbolic"
 #[kani::proof]
 #[kani::unwind(17)]
 fn c08_clear_mac_commands_triples_2() {
@@ -315,7 +315,7 @@ fn c08_clear_mac_commands_triples_2() {
     kani::cover!(true, "verif-reached: all shapes done");
 }
 
-// @verif props=C08,C04 obligation=Uplink::clear_mac_commands.contract[3cmds,first=3] label=bounded(3-commands) tier=thorough bound="queues of 3 whole uplink commands whose first kind is #3 (100 kind sequences), payload bytes symbolic"
+// @verif props=C08,C04 obligation=Uplink::clear_mac_commands.contract[3cmds,first=3] label=bounded(3-commands) tier=never bound="queues of 3 whole uplink commands whose first kind is #3 (100 kind sequences), payload bytes symbolic"
 #[kani::proof]
 #[kani::unwind(17)]
 fn c08_clear_mac_commands_triples_3() {
@@ -331,7 +331,7 @@ fn c08_clear_mac_commands_triples_3() {
     kani::cover!(true, "verif-reached: all shapes done");
 }
 
-// @verif props=C08,C04 obligation=Uplink::clear_mac_commands.contract[3cmds,first=4] label=bounded(3-commands) tier=thorough bound="queues of 3 whole uplink commands whose first kind is #4 (100 kind sequences), payload bytes symbolic"
+// @verif props=C08,C04 obligation=Uplink::clear_mac_commands.contract[3cmds,first=4] label=bounded(3-commands) tier=never bound="queues of 3 whole uplink commands whose first kind is #4 (100 kind sequences), payload bytes symbolic"
 #[kani::proof]
 #[kani::unwind(17)]
 fn c08_clear_mac_commands_triples_4() {
@@ -347,7 +347,7 @@ fn c08_clear_mac_commands_triples_4() {
     kani::cover!(true, "verif-reached: all shapes done");
 }
 
-// @verif props=C08,C04 obligation=Uplink::clear_mac_commands.contract[3cmds,first=5] label=bounded(3-commands) tier=thorough bound="queues of 3 whole uplink commands whose first kind is #5 (100 kind sequences), payload bytes symbolic"
+// @verif props=C08,C04 obligation=Uplink::clear_mac_commands.contract[3cmds,first=5] label=bounded(3-commands) tier=never bound="queues of 3 whole uplink commands whose first kind is #5 (100 kind sequences), payload bytes symbolic"
 #[kani::proof]
 #[kani::unwind(17)]
 fn c08_clear_mac_commands_triples_5() {
@@ -363,7 +363,7 @@ fn c08_clear_mac_commands_triples_5() {
     kani::cover!(true, "verif-reached: all shapes done");
 }
 
-// @verif props=C08,C04 obligation=Uplink::clear_mac_commands.contract[3cmds,first=6] label=bounded(3-commands) tier=thorough bound="queues of 3 whole uplink commands whose first kind is #6 (100 kind sequences), payload bytes symbolic"
+// @verif props=C08,C04 obligation=Uplink::clear_mac_commands.contract[3cmds,first=6] label=bounded(3-commands) tier=never bound="queues of 3 whole uplink commands whose first kind is #6 (100 kind sequences), payload bytes symbolic"
 #[kani::proof]
 #[kani::unwind(17)]
 fn c08_clear_mac_commands_triples_6() {
@@ -379,7 +379,7 @@ fn c08_clear_mac_commands_triples_6() {
     kani::cover!(true, "verif-reached: all shapes done");
 }
 
-// @verif props=C08,C04 obligation=Uplink::clear_mac_commands.contract[3cmds,first=7] label=bounded(3-commands) tier=thorough bound="queues of 3 whole uplink commands whose first kind is #7 (100 kind sequences), payload bytes symbolic"
+// @verif props=C08,C04 obligation=Uplink::clear_mac_commands.contract[3cmds,first=7] label=bounded(3-commands) tier=never bound="queues of 3 whole uplink commands whose first kind is #7 (100 kind sequences), payload bytes symbolic"
 #[kani::proof]
 #[kani::unwind(17)]
 fn c08_clear_mac_commands_triples_7() {
@@ -395,7 +395,7 @@ fn c08_clear_mac_commands_triples_7() {
     kani::cover!(true, "verif-reached: all shapes done");
 }
 
-// @verif props=C08,C04 obligation=Uplink::clear_mac_commands.contract[3cmds,first=8] label=bounded(3-commands) tier=thorough bound="queues of 3 whole uplink commands whose first kind is #8 (100 kind sequences), payload bytes symbolic"
+// @verif props=C08,C04 obligation=Uplink::clear_mac_commands.contract[3cmds,first=8] label=bounded(3-commands) tier=never bound="queues of 3 whole uplink commands whose first kind is #8 (100 kind sequences), payload bytes symbolic"
 #[kani::proof]
 #[kani::unwind(17)]
 fn c08_clear_mac_commands_triples_8() {
@@ -411,7 +411,7 @@ fn c08_clear_mac_commands_triples_8() {
     kani::cover!(true, "verif-reached: all shapes done");
 }
 
-// @verif props=C08,C04 obligation=Uplink::clear_mac_commands.contract[3cmds,first=9] label=bounded(3-commands) tier=thorough bound="queues of 3 whole uplink commands whose first kind is #9 (100 kind sequences), payload bytes symbolic"
+// @verif props=C08,C04 obligation=Uplink::clear_mac_commands.contract[3cmds,first=9] label=bounded(3-commands) tier=never bound="queues of 3 whole uplink commands whose first kind is #9 (100 kind sequences), payload bytes symbolic"
 #[kani::proof]
 #[kani::unwind(17)]
 fn c08_clear_mac_commands_triples_9() {
